@@ -69,7 +69,11 @@ pub fn catch<T>(f: impl FnOnce() -> T) -> Result<T, String> {
             } else {
                 "<non-string panic>".to_string()
             };
-            Err(msg.replace(' ', "_").replace('\n', "_"))
+            Err(msg
+                .chars()
+                .map(|c| if c.is_ascii_graphic() { c } else { '_' })
+                .take(160)
+                .collect())
         }
     }
 }
